@@ -116,3 +116,11 @@ void c08_narrow_bad(std::vector<uint16_t> *lut, uint32_t num_symbols) {
   }
 }
 }  // namespace verif_control
+
+// ---- SHIFT-LEDGER control (C17): bits gathered in a 32-bit temporary ---------------------------------
+namespace verif_control {
+void c17_wideshift_bad(uint8_t *dst, uint32_t data, int bit_shift, int nbits) {
+  uint32_t bits = (*dst & ((1u << bit_shift) - 1)) | (data << bit_shift);
+  for (int left = bit_shift + nbits; left > 0; left -= 8) { *dst++ = static_cast<uint8_t>(bits & 0xff); bits >>= 8; }
+}
+}  // namespace verif_control
